@@ -36,9 +36,9 @@ Four defects found by this property (KF-C11-1 … KF-C11-4: `div_signed_int`, `s
 full-strength.  What was wrong is kept as historical witnesses `…_before_fix_fails` about the
 as-written variants of `ModelAsWritten.lean` (the driver compares the library with those variants
 when the harness measures that a repair is absent, so a regression is reported through the violated
-clause and its witness).  Still open: `lcm` returns the result code of an intermediate `abs` without
-storing anything (KF-C11-5, `lcm_spec_fails`; only observable with a policy the library never
-instantiates); `lcm_spec_partial` covers every call in which `|x|` and `|y|` are values of the type.
+clause and its witness).  `lcm` returned the result code of an intermediate `abs` without
+storing anything (KF-C11-5) — repaired by /repo 5d13b40, `lcm_spec` is full-strength, the old behaviour is
+`lcm_spec_before_fix_fails`.
 `sqrt_holds` (over `ℝ`: the exact result is irrational), `gcd_spec` are full-strength.  Conversions
 into `mpz_class` / `mpq_class`: `assign_mpz_mpq_holds`, `assign_mpz_float_holds`, `assign_mpz_int_exact`.
 -/
@@ -357,35 +357,22 @@ example : IntOp.run .i8 .checkOverflowOnly .gcd .up { x := -128, y := 96 } = (32
 example : IntOp.run .i8 .checkOverflowOnly .gcd .down { x := -128, y := 0 } = (127, V_GT_SUP) := by decide
 example : IntOp.run .i8 .extended .gcd .up { x := 127, y := -12 } = (12, V_EQ) := by decide
 
-/-- **`lcm_assign_r`, partial**: whenever `|x|` and `|y|` are values of the type (always, except for the
-minimum of an asymmetric finite range) the result is `lcm(x, y)` stored exactly or a true overflow report.
-The excluded calls are KF-C11-5 (`lcm_spec_fails`). -/
-theorem lcm_spec_partial {t : IntTy} {π : Policy} (c : Cfg t π) (dir : Dir) (a : Operands)
-    (hz : t.inRange a.to0) (hx : t.finite π a.x) (hy : t.finite π a.y)
-    (hxr : -a.x ≤ t.emax π) (hyr : -a.y ≤ t.emax π) :
+/-- **`lcm_assign_r`** (`lcm_gcd_exact` as repaired by /repo 5d13b40, `lcm_ext` for special operands):
+`lcm(x, y)` is stored exactly or a true overflow is reported — also when `|x|` or `|y|` is not a value of
+the type (then the lcm is not one either and `to` receives the outcome of that `abs`). -/
+theorem lcm_spec {t : IntTy} {π : Policy} (c : Cfg t π) (dir : Dir) (a : Operands)
+    (hpre : IntOp.pre t π .lcm a = true) :
     OKQ t π dir (IntOp.run t π .lcm dir a) (IntOp.exact t π .lcm a).toQ := by
-  have dx := IntTy.denote_finite c.wf hx
-  have dy := IntTy.denote_finite c.wf hy
-  have nx : t.isNan π a.x = false ∧ t.isMinf π a.x = false ∧ t.isPinf π a.x = false := by
-    rcases IntTy.denote_cases c.wf (IntTy.finite_inRange hx) with ⟨_, d⟩ | ⟨_, _, _, d⟩ | ⟨_, _, _, d⟩ | ⟨a1, b1, c1, _, _⟩
-    · rw [dx] at d; cases d
-    · rw [dx] at d; cases d
-    · rw [dx] at d; cases d
-    · exact ⟨a1, b1, c1⟩
-  have ny : t.isNan π a.y = false ∧ t.isMinf π a.y = false ∧ t.isPinf π a.y = false := by
-    rcases IntTy.denote_cases c.wf (IntTy.finite_inRange hy) with ⟨_, d⟩ | ⟨_, _, _, d⟩ | ⟨_, _, _, d⟩ | ⟨a1, b1, c1, _, _⟩
-    · rw [dy] at d; cases d
-    · rw [dy] at d; cases d
-    · rw [dy] at d; cases d
-    · exact ⟨a1, b1, c1⟩
-  simp only [IntOp.run, IntOp.exact, lcmExt, nx.1, nx.2.1, nx.2.2, ny.1, ny.2.1, ny.2.2, dx, dy, exactLcm,
-    Bool.or_self, Bool.false_eq_true, if_false]
-  obtain ⟨z, hzr, htri⟩ := lcm_tri_partial c.wf c.larger c.checkOverflow dir (to0 := a.to0) hx hy hxr hyr
-  have := ok_toQ (tri_ok c.wf hzr htri)
-  simpa [Exact.ofInt, Exact.toQ, Ext.map] using this
+  simp only [IntOp.pre, Bool.and_eq_true, decide_eq_true_eq] at hpre
+  obtain ⟨⟨⟨x1, x2⟩, y1, y2⟩, z1, z2⟩ := hpre
+  simp only [IntOp.run, IntOp.exact]
+  rw [exactLcm_eq, Exact.toQ_ofExt]
+  exact ok_toQ (lcmExt_ok c.wf c.larger c.checkOverflow dir ⟨z1, z2⟩ ⟨x1, x2⟩ ⟨y1, y2⟩)
 
 example : IntOp.run .i8 .checkOverflowOnly .lcm .up { x := -12, y := 10 } = (60, V_EQ) := by decide
 example : IntOp.run .i8 .checkOverflowOnly .lcm .down { x := 12, y := 11 } = (127, V_GT_SUP) := by decide
+example : IntOp.run .i8 .checkOverflowOnly .lcm .down { to0 := 85, x := 1, y := -128 } = (127, V_GT_SUP) := by decide
+example : IntOp.run .i8 .checkOverflowOnly .lcm .up { to0 := 85, x := 1, y := -128 } = (85, V_LT_PLUS_INFINITY.orUnrep) := by decide
 
 /-! ## conversions into `mpz_class` / `mpq_class` -/
 
@@ -414,34 +401,17 @@ example : Mp.assignMpzFloat .extended .nan .up (.fin (-5) 2) .up = (.fin (-2) 1,
 theorem assign_mpz_int_exact (f : IntTy) {v : Int} (h : f.inRange v) : Mp.assignMpzInt f v = (v, V_EQ) :=
   assignMpzInt_exact f h
 
-/-! ## lcm: the code of an intermediate `abs` is returned, nothing is stored -/
-
-/-- the "infinities only" layout of `Extended_Int` (not a policy the library instantiates) -/
-def infOnly : Policy := { Policy.debugExtended with hasNan := false }
-
-/-- **`lcm(1, -127)` on `int8_t` with infinities only, ROUND_UP: returns `V_LT_PLUS_INFINITY`**
-(class `+∞`, representable) while `to` still holds its old value 85. -/
-theorem lcm_spec_fails :
-    IntOp.run .i8 infOnly .lcm .up { to0 := 85, x := 1, y := -127 } = (85, V_LT_PLUS_INFINITY) ∧
-    K4.holdsB V_LT_PLUS_INFINITY (IntTy.i8.denote infOnly 85) (IntOp.exact .i8 infOnly .lcm { to0 := 85, x := 1, y := -127 })
-      = false := by decide
-
-theorem lcm_model_fails :
-    IntOp.run .i8 infOnly .lcm .up { to0 := 85, x := 1, y := -127 } = (85, V_LT_PLUS_INFINITY) ∧
-    K4.holdsB V_LT_PLUS_INFINITY (IntTy.i8.denote infOnly 85) (IntOp.exact .i8 infOnly .lcm { to0 := 85, x := 1, y := -127 })
-      = false := lcm_spec_fails
-
 /-! ## all proved operations at once -/
 
 /-- operations for which theorems exist -/
 def proved : IntOp → Bool
-  | .sqrt | .gcd | .lcm => false
+  | .sqrt => false
   | _ => true
 
 /-- **C11.op_holds**, partial: for every width, signedness, policy, direction and operand bit
 patterns within the contract — relation, direction, overflow claim, no wrap, NaN stored.
-Not in this aggregate: `sqrt` (`sqrt_holds`, stated over `ℝ`), `gcd` (`gcd_spec`), `lcm`
-(`lcm_spec_partial` / `lcm_spec_fails`, the open finding KF-C11-5). -/
+Not in this aggregate: `sqrt` only (`sqrt_holds`: the same clauses stated over `ℝ`, the exact result being
+irrational). -/
 theorem op_holds_partial {t : IntTy} {π : Policy} (c : Cfg t π) (op : IntOp) (hop : proved op = true)
     (hasg : ∀ f πf, op = .assign f πf → f.WF πf ∧ t.GapOK f)
     (dir : Dir) (a : Operands) (hpre : IntOp.pre t π op a = true) :
@@ -465,8 +435,8 @@ theorem op_holds_partial {t : IntTy} {π : Policy} (c : Cfg t π) (op : IntOp) (
   | umod2exp => exact umod2exp_holds c dir a hpre
   | smod2exp => exact smod2exp_holds c dir a hpre
   | sqrt => cases hop
-  | gcd => cases hop
-  | lcm => cases hop
+  | gcd => exact gcd_spec c dir a hpre
+  | lcm => exact lcm_spec c dir a hpre
 
 /-! ## bounded builds never lie -/
 
@@ -538,6 +508,18 @@ theorem sqrt_before_fix_fails :
     sqrtAsWritten .i8 .checkOverflowOnly 0 64 .up = (0, V_LT) ∧
     K4.holdsB V_LT (.fin 0) (IntOp.exact .i8 .checkOverflowOnly .sqrt { x := 64 }) = false ∧
     IntOp.run .i8 .checkOverflowOnly .sqrt .up { x := 64 } = (8, V_EQ) := by decide
+
+/-- the "infinities only" layout of `Extended_Int` (not a policy the library instantiates) -/
+def infOnly : Policy := { Policy.debugExtended with hasNan := false }
+
+/-- **KF-C11-5 (fixed by /repo 5d13b40).  `lcm(1, -127)` on `int8_t` with infinities only, ROUND_UP returned
+`V_LT_PLUS_INFINITY`** (class `+∞`, representable: "`+∞` was stored") while `to` still held its old value 85:
+the code of the `abs` of a temporary.  The repaired code stores `+∞`. -/
+theorem lcm_spec_before_fix_fails :
+    lcmAsWritten .i8 infOnly 85 1 (-127) .up = (85, V_LT_PLUS_INFINITY) ∧
+    K4.holdsB V_LT_PLUS_INFINITY (IntTy.i8.denote infOnly 85) (IntOp.exact .i8 infOnly .lcm { to0 := 85, x := 1, y := -127 })
+      = false ∧
+    IntOp.run .i8 infOnly .lcm .up { to0 := 85, x := 1, y := -127 } = (127, V_LT_PLUS_INFINITY) := by decide
 
 /-- a tree measured without the div repair is compared with the as-written division -/
 example : IntOp.runM { div := false } .i8 .checkOverflowOnly .div .down { x := 7, y := -2 } = (-3, V_GT) := by decide
